@@ -6,7 +6,7 @@
   outcome function `tls` of the TLS library, every list of transport read chunks (= every byte string and every
   way of segmenting it), both roles.  Literals come from SA.Gen.C06 (regenerated from the Go source).
 -/
-import SA.Proofs.Handshake
+import SA.Proofs.HandshakeComplete
 import SA.Model.Security
 namespace SA.Handshake
 
@@ -190,7 +190,7 @@ theorem C06_admits_only_wellformed (cfg : SrvCfg) (tls : B → Bool) (chunks : L
           rw [e2] at h
           simp only at h
           by_cases hm2 : req2.method = Gen.srvUpgradeMethod
-          · simp only [hm2, ne_eq, not_true_eq_false, if_false] at h
+          · simp only [hm2, not_true_eq_false, if_false] at h
             by_cases hc : goLower (hget req2.headers bConnection) = Gen.srvUpgradeConnection
             · simp only [hc, not_true_eq_false, if_false] at h
               by_cases hu : hget req2.headers bUpgrade = Gen.srvUpgradePrefix ++ negotiate (hget req.headers Gen.acceptsProtocolVersion)
@@ -300,6 +300,208 @@ def modelledPanicSites : List String := [
     and kind) contains no site without a model counterpart -/
 theorem C06_panic_site_inventory : ∀ s ∈ Gen.c06PanicSites, s ∈ modelledPanicSites := by decide
 
+/-! ### completeness: every well-formed pair of requests / replies is admitted -/
+
+theorem flatten_bytewise (l : B) : (l.map fun b => [b]).flatten = l := by
+  induction l with
+  | nil => rfl
+  | cons x xs ih => simpa using ih
+
+theorem serverRun_flat (cfg : SrvCfg) (tls : B → Bool) (chunks : List B) :
+    serverRun cfg tls chunks = serverOn cfg tls (chunks.flatten.length + 2) ⟨chunks.flatten, []⟩ := by
+  rw [C06_segmentation_independent]
+  unfold serverRun
+  have hl : [chunks.flatten].flatten = chunks.flatten := by simp
+  rw [hl]
+  exact serverOn_sim _ _ _ _ _ (by simp [Rd.flat])
+
+theorem clientRun_flat (s0 : Bool) (tls : B → Bool) (chunks : List B) :
+    clientRun s0 tls chunks = clientOn s0 tls (chunks.flatten.length + 2) ⟨chunks.flatten, []⟩ := by
+  rw [C06_segmentation_independent_client]
+  unfold clientRun
+  have hl : [chunks.flatten].flatten = chunks.flatten := by simp
+  rw [hl]
+  exact clientOn_sim _ _ _ _ _ (by simp [Rd.flat])
+
+theorem readRequest_of_reads {fuel : Nat} {s m u p : B} {h : Headers} {rest : B}
+    (R : ReadsRequest fuel s m u p h rest) :
+    ∃ r1, readRequest fuel ⟨s, []⟩ = .ok (⟨m, u, p, h⟩, r1) ∧ r1.flat = rest := by
+  obtain ⟨r', e, hr, n1, n2⟩ := R
+  refine ⟨r', ?_, hr⟩
+  unfold readRequest
+  rw [e]
+  simp only [parseRequestLine_render m u p n1 n2]
+
+/-- the decidable well-formedness of a pair of requests apart from the significant header values: URLs without
+    space / LF, protocol fields without LF, every header line `wfHeader` (name: non-empty, token bytes or spaces,
+    not starting with a space; raw value after the colon: `validHeaderValueByte`s only) -/
+def wfRequestPair (u p : B) (ws1 : Headers) (u2 p2 : B) (ws2 : Headers) : Bool :=
+  wfWord u && wfTail p && wfHeaders ws1 && wfWord u2 && wfTail p2 && wfHeaders ws2
+
+/-- **every well-formed, compatible pair of requests is admitted (wire level)**: take any announce request
+    `X-SOCKETACE SP url SP proto CRLF (name ":" raw CRLF)* CRLF` and any upgrade request `GET SP url SP proto CRLF …`
+    whose header lines are well-formed (`wfRequestPair`), followed by arbitrary bytes `rest`, such that
+    * `v` is the first version of the server's `SupportedProtocolVersions` (server order) contained in the
+      comma-separated list of the first header whose name canonicalises to `Accepts-Protocol-Version`,
+    * the first `Connection` header lower-cases to `upgrade`, the first `Upgrade` header is `socketace/v`,
+    * if the first `Security` header upper-cases to `STARTTLS`: the carrier is not already secure, the certificate
+      manager yields a certificate, and the TLS library (parameter) completes its handshake on `rest`;
+    then under **every** segmentation of that byte stream into transport reads the server establishes the session
+    with version `v` — StartTLS-secured when asked for, otherwise plain / underlying with `rest` handed on
+    unchanged — having written exactly `200` and `101`. -/
+theorem C06_admits_every_wellformed (cfg : SrvCfg) (tls : B → Bool)
+    (u p : B) (ws1 : Headers) (u2 p2 : B) (ws2 : Headers) (rest v : B) (chunks : List B)
+    (hchunks : chunks.flatten =
+      wireRequest Gen.requestMethod u p ws1 ++ wireRequest Gen.srvUpgradeMethod u2 p2 ws2 ++ rest)
+    (hwf : wfRequestPair u p ws1 u2 p2 ws2 = true)
+    (hv : firstSupported (hget (parsedHeaders ws1) Gen.acceptsProtocolVersion) = some v)
+    (hc : goLower (hget (parsedHeaders ws2) bConnection) = Gen.srvUpgradeConnection)
+    (hup : hget (parsedHeaders ws2) bUpgrade = Gen.srvUpgradePrefix ++ v)
+    (htls : asksStartTls ws2 = true → cfg.secure = false ∧ cfg.cert = .ok ∧ tls rest = true) :
+    (serverRun cfg tls chunks).out = expectedSession cfg v (asksStartTls ws2) rest ∧
+      (serverRun cfg tls chunks).written.map (·.code) = [200, 101] := by
+  have main : (serverRun cfg tls chunks).out = expectedSession cfg v (asksStartTls ws2) rest := by
+    rw [serverRun_flat, hchunks, List.append_assoc]
+    simp only [wfRequestPair, Bool.and_eq_true] at hwf
+    obtain ⟨⟨⟨⟨⟨a, b⟩, c⟩, d⟩, e⟩, g⟩ := hwf
+    have l1 : ws1.length < (wireRequest Gen.requestMethod u p ws1).length := length_lt_wireMessage _ ws1
+    have l2 : ws2.length < (wireRequest Gen.srvUpgradeMethod u2 p2 ws2).length := length_lt_wireMessage _ ws2
+    exact serverOn_complete cfg tls _ u p ws1 u2 p2 ws2 rest v a b c d e g
+      (by rw [List.length_append, List.length_append]; omega)
+      (by rw [List.length_append, List.length_append]; omega) hv hc hup htls
+  refine ⟨main, ?_⟩
+  unfold expectedSession at main
+  split at main
+  · exact C06_session_only_after_101 _ _ _ _ _ _ _ main
+  · exact C06_session_only_after_101 _ _ _ _ _ _ _ main
+
+/-- the same for requests in the format Go's `(*Request).String` / `http.Header.Write` produce
+    (`name ": " value CRLF`); `hs1`, `hs2` are (name, value) pairs, read back as (canonical name, trimmed value) -/
+theorem C06_admits_every_rendered (cfg : SrvCfg) (tls : B → Bool)
+    (u p : B) (hs1 : Headers) (u2 p2 : B) (hs2 : Headers) (rest v : B) (chunks : List B)
+    (hchunks : chunks.flatten =
+      renderRequest Gen.requestMethod u p hs1 ++ renderRequest Gen.srvUpgradeMethod u2 p2 hs2 ++ rest)
+    (hwf : wfRequestPair u p hs1 u2 p2 hs2 = true)
+    (hv : firstSupported (hget (parsedHeaders hs1) Gen.acceptsProtocolVersion) = some v)
+    (hc : goLower (hget (parsedHeaders hs2) bConnection) = Gen.srvUpgradeConnection)
+    (hup : hget (parsedHeaders hs2) bUpgrade = Gen.srvUpgradePrefix ++ v)
+    (htls : asksStartTls hs2 = true → cfg.secure = false ∧ cfg.cert = .ok ∧ tls rest = true) :
+    (serverRun cfg tls chunks).out = expectedSession cfg v (asksStartTls hs2) rest ∧
+      (serverRun cfg tls chunks).written.map (·.code) = [200, 101] := by
+  have ha : asksStartTls (renderHeaders hs2) = asksStartTls hs2 := by
+    simp only [asksStartTls, parsedHeaders_render]
+  have hwf' : wfRequestPair u p (renderHeaders hs1) u2 p2 (renderHeaders hs2) = true := by
+    simp only [wfRequestPair, Bool.and_eq_true] at hwf ⊢
+    obtain ⟨⟨⟨⟨⟨a, b⟩, c⟩, d⟩, e⟩, g⟩ := hwf
+    exact ⟨⟨⟨⟨⟨a, b⟩, wfHeaders_render _ c⟩, d⟩, e⟩, wfHeaders_render _ g⟩
+  have := C06_admits_every_wellformed cfg tls u p (renderHeaders hs1) u2 p2 (renderHeaders hs2) rest v chunks
+    hchunks hwf' (by rw [parsedHeaders_render]; exact hv) (by rw [parsedHeaders_render]; exact hc)
+    (by rw [parsedHeaders_render]; exact hup) (by rw [ha]; exact htls)
+  rw [ha] at this
+  exact this
+
+def wfResponsePair (pr st text : B) (ws1 : Headers) (pr2 st2 text2 : B) (ws2 : Headers) : Bool :=
+  wfWord pr && wfWord st && wfTail text && wfHeaders ws1 && wfWord pr2 && wfWord st2 && wfTail text2 && wfHeaders ws2
+
+/-- **client analogue**: two well-formed replies `proto SP code SP text CRLF (name ":" raw CRLF)* CRLF` whose codes
+    parse (strconv.ParseInt) to 200 and 101, under every segmentation, make the client establish the session with
+    the version named by the first `Protocol-Version` header of the first reply — StartTLS-secured when the carrier is
+    not secure and the first `Capabilities` header lists `StartTLS` (case-insensitive; then under the hypothesis that
+    the TLS library completes on `rest`), otherwise with `rest` handed on unchanged. -/
+theorem C06_client_admits_every_wellformed (s0 : Bool) (tls : B → Bool)
+    (pr st text : B) (ws1 : Headers) (pr2 st2 text2 : B) (ws2 : Headers) (rest : B) (chunks : List B)
+    (hchunks : chunks.flatten = wireResponse pr st text ws1 ++ wireResponse pr2 st2 text2 ws2 ++ rest)
+    (hwf : wfResponsePair pr st text ws1 pr2 st2 text2 ws2 = true)
+    (hc1 : parseInt32 st = some Gen.cliHandshakeStatus) (hc2 : parseInt32 st2 = some Gen.cliUpgradeStatus)
+    (htls : shouldStartTls s0 (hget (parsedHeaders ws1) Gen.capabilitiesHdr) = true → tls rest = true) :
+    (clientRun s0 tls chunks).out =
+      if shouldStartTls s0 (hget (parsedHeaders ws1) Gen.capabilitiesHdr)
+      then .established (hget (parsedHeaders ws1) bProtocolVersion) .tls true []
+      else .established (hget (parsedHeaders ws1) bProtocolVersion) (if s0 then .underlying else .none) s0 rest := by
+  rw [clientRun_flat, hchunks, List.append_assoc]
+  simp only [wfResponsePair, Bool.and_eq_true] at hwf
+  obtain ⟨⟨⟨⟨⟨⟨⟨a, b⟩, c⟩, d⟩, e⟩, g⟩, h⟩, i⟩ := hwf
+  have l1 : ws1.length < (wireResponse pr st text ws1).length := length_lt_wireMessage _ ws1
+  have l2 : ws2.length < (wireResponse pr2 st2 text2 ws2).length := length_lt_wireMessage _ ws2
+  exact clientOn_complete s0 tls _ pr st text ws1 pr2 st2 text2 ws2 rest a b c d e g h i
+    (by rw [List.length_append, List.length_append]; omega)
+    (by rw [List.length_append, List.length_append]; omega) hc1 hc2 htls
+
+/-- **exactly**: the server establishes a session with version `v` if and only if the byte stream reads (in
+    net/textproto's sense, `ReadsRequest`) as an announce request whose `Accepts-Protocol-Version` list has `v` as
+    the first supported version in the server's order, followed by a `GET` request with `Connection: upgrade`
+    (case-insensitive), `Upgrade: socketace/v`, and — when `Security: StartTLS` is asked for — a server that can and
+    does complete TLS.  (`→` strengthens `C06_admits_only_wellformed`; `←` is completeness at the reader level;
+    `C06_admits_every_wellformed` shows which concrete byte streams satisfy the right-hand side.) -/
+theorem C06_admits_exactly (cfg : SrvCfg) (tls : B → Bool) (chunks : List B) (v : B) :
+    let fuel := chunks.flatten.length + 2
+    (∃ t s left, (serverRun cfg tls chunks).out = .established v t s left) ↔
+    ∃ u p hd rest u2 p2 hd2 rest2,
+      ReadsRequest fuel chunks.flatten Gen.requestMethod u p hd rest ∧
+      firstSupported (hget hd Gen.acceptsProtocolVersion) = some v ∧
+      ReadsRequest fuel rest Gen.srvUpgradeMethod u2 p2 hd2 rest2 ∧
+      goLower (hget hd2 bConnection) = Gen.srvUpgradeConnection ∧
+      hget hd2 bUpgrade = Gen.srvUpgradePrefix ++ v ∧
+      (goUpper (hget hd2 bSecurity) = goUpper Gen.srvSecurityToken →
+        cfg.secure = false ∧ cfg.cert = .ok ∧ tls rest2 = true) := by
+  intro fuel
+  have hreq : Gen.requestMethod = Gen.srvAnnounceMethod := by decide
+  rw [serverRun_flat, serverOn_established_iff]
+  constructor
+  · rintro ⟨req, r1, req2, r2, e1, hm, hn, hne, e2, hm2, hc, hu, hs⟩
+    have R1 := readsRequest_of_ok e1
+    rcases relParsed_cases (readRequest_sim fuel r1 ⟨r1.flat, []⟩ (by simp [Rd.flat])) with
+      ⟨rq, ra, rb, f, f', hab⟩ | ⟨f, _⟩ | ⟨f, _⟩
+    · rw [e2] at f
+      simp only [Parsed.ok.injEq, Prod.mk.injEq] at f
+      obtain ⟨f1, f2⟩ := f
+      subst f1; subst f2
+      have R2 := readsRequest_of_ok f'
+      rw [hm] at R1
+      rw [hm2] at R2
+      rw [hreq]
+      exact ⟨_, _, _, _, _, _, _, _, R1, firstSupported_of_negotiate hn hne, R2, hc, hu,
+        fun h => by rw [← hab]; exact hs h⟩
+    · rw [e2] at f; cases f
+    · rw [e2] at f; cases f
+  · rintro ⟨u, p, hd, rest, u2, p2, hd2, rest2, R1, hv, R2, hc, hu, hs⟩
+    obtain ⟨r1, e1, h1⟩ := readRequest_of_reads R1
+    obtain ⟨rb, eb, hb⟩ := readRequest_of_reads R2
+    obtain ⟨hn, hne⟩ := negotiate_of_firstSupported hv
+    rcases relParsed_cases (readRequest_sim fuel r1 ⟨rest, []⟩ (by rw [h1]; simp [Rd.flat])) with
+      ⟨rq, ra, rb', f, f', hab⟩ | ⟨_, f⟩ | ⟨_, f⟩
+    · rw [eb] at f'
+      simp only [Parsed.ok.injEq, Prod.mk.injEq] at f'
+      obtain ⟨f1, f2⟩ := f'
+      subst f1; subst f2
+      exact ⟨_, r1, _, ra, e1, hreq, hn, hne, f, rfl, hc, hu, fun h => by rw [hab, hb]; exact hs h⟩
+    · rw [eb] at f; cases f
+    · rw [eb] at f; cases f
+
+def bHttp11 : B := [72, 84, 84, 80, 47, 49, 46, 49]
+
+/-- **the renderer is the client's**: the announce request the client model sends (`Security.announceRequest`, tied
+    to the real client's bytes by the C04 correspondence) and the upgrade request it sends (`upgradeRequest`, compared
+    byte for byte with the real client's second write by the `hs-client` correspondence) are instances of
+    `renderRequest` — for every version string that `http.Header.Write`'s TrimString leaves alone. -/
+theorem C06_renderer_matches_client :
+    Security.announceRequest = renderRequest Gen.requestMethod [47] bHttp11
+      [(Gen.acceptsProtocolVersion, Gen.c06ProtocolVersion), (Gen.userAgent, bSocketaceSlash ++ Gen.unknownVersion)] ∧
+    ∀ (v : B) (st : Bool), trimString (bSocketaceSlash ++ v) = bSocketaceSlash ++ v →
+      upgradeRequest v st = renderRequest Gen.srvUpgradeMethod [47] bHttp11
+        ([(bConnection, Gen.srvUpgradeConnection)] ++ (if st then [(bSecurity, Gen.capabilityStartTls)] else []) ++
+          [(bUpgrade, bSocketaceSlash ++ v), (Gen.userAgent, bSocketaceSlash ++ Gen.unknownVersion)]) := by
+  refine ⟨by decide, ?_⟩
+  intro v st h
+  have t1 : trimString [117, 112, 103, 114, 97, 100, 101] = Gen.srvUpgradeConnection := by decide
+  have t2 : trimString Gen.capabilityStartTls = Gen.capabilityStartTls := by decide
+  have t3 : trimString (bSocketaceSlash ++ Gen.unknownVersion) = bSocketaceSlash ++ Gen.unknownVersion := by decide
+  unfold upgradeRequest
+  simp only [h, t1, t2, t3]
+  cases st <;>
+    simp [renderRequest, wireRequest, wireMessage, wireBlock, wireHeader, renderHeaders, crlf, colonSp, bHttp11,
+      Gen.srvUpgradeMethod]
+
 /-! ### non-vacuity -/
 
 def ex_announce : B := Security.announceRequest
@@ -316,6 +518,112 @@ example : (serverRun ⟨false, .nil⟩ (fun _ => false) [[71, 69, 84, 32, 47, 32
 example : serverRun ⟨false, .nil⟩ (fun _ => false) [[71, 69, 84, 32], [47, 32, 72, 13], [10, 13, 10]]
     ≠ serverRun ⟨false, .nil⟩ (fun _ => false) [[71, 69, 84, 32, 47, 13, 10, 13, 10]] := by decide +kernel
 
+/-! ### non-vacuity of the completeness theorems -/
+
+def exU : B := [47, 116, 117, 110, 110, 101, 108, 63, 120, 61, 49]
+def exP : B := [72, 84, 84, 80, 47, 49, 46, 49, 32, 40, 119, 101, 105, 114, 100, 32, 112, 114, 111, 116, 111, 41, 13]
+/-- extra headers before and after, odd letter case, several offered versions, no space / a tab after the colon,
+    a name with spaces, a name starting with a digit, obs-text bytes, trailing blanks, an empty value -/
+def exWs1 : Headers := [([120, 45, 116, 114, 97, 99, 101, 45, 105, 100], [32, 48, 97, 102, 55, 54, 53, 49, 57, 49, 54, 99, 100, 52, 51, 100, 100, 56, 52, 52, 56, 101, 98, 50, 49, 49, 99, 56, 48, 51, 49, 57, 99]),
+    ([65, 67, 67, 69, 80, 84, 83, 45, 112, 114, 111, 116, 111, 99, 111, 108, 45, 86, 69, 82, 83, 73, 79, 78], [118, 49, 46, 48, 46, 48, 32, 44, 9, 118, 50, 46, 48, 46, 48, 44, 118, 57, 46, 57, 46, 57, 32, 32]),
+    ([85, 115, 101, 114, 45, 65, 103, 101, 110, 116], [32, 99, 117, 114, 108, 47, 56]),
+    ([88, 32, 79, 100, 100, 32, 78, 97, 109, 101], []),
+    ([49, 115, 116], [32, 195, 162, 194, 130, 194, 172, 32])]
+/-- `connection:<TAB>uPgRaDe ` ; a second, contradicting `Connection` header after the significant one -/
+def exWs2 : Headers := [([72, 111, 115, 116], [32, 101, 120, 97, 109, 112, 108, 101, 46, 111, 114, 103]),
+    ([99, 111, 110, 110, 101, 99, 116, 105, 111, 110], [9, 117, 80, 103, 82, 97, 68, 101, 32]),
+    ([85, 80, 71, 82, 65, 68, 69], [32, 115, 111, 99, 107, 101, 116, 97, 99, 101, 47, 118, 50, 46, 48, 46, 48]),
+    ([88, 45, 69, 109, 112, 116, 121], []),
+    ([67, 111, 110, 110, 101, 99, 116, 105, 111, 110], [32, 99, 108, 111, 115, 101])]
+def exWs2Tls : Headers := exWs2 ++ [([115, 101, 99, 117, 114, 105, 116, 121], [32, 32, 115, 116, 97, 114, 116, 116, 108, 115])]
+def exStream (ws2 : Headers) (rest : B) : B :=
+  wireRequest Gen.requestMethod exU exP exWs1 ++ wireRequest Gen.srvUpgradeMethod [47] bHttp11 ws2 ++ rest
+
+/-- delivered byte by byte, no TLS asked: admitted with `v2.0.0`, the payload `[1,2,3]` handed on -/
+example : (serverRun ⟨false, .nil⟩ (fun _ => false) ((exStream exWs2 [1, 2, 3]).map fun b => [b])).out
+    = .established Gen.c06ProtocolVersion .none false [1, 2, 3] := by
+  have h := (C06_admits_every_wellformed ⟨false, .nil⟩ (fun _ => false) exU exP exWs1 [47] bHttp11 exWs2 [1, 2, 3]
+    Gen.c06ProtocolVersion ((exStream exWs2 [1, 2, 3]).map fun b => [b]) (flatten_bytewise _)
+    (by decide) (by decide) (by decide) (by decide) (by decide)).1
+  rw [h]; decide
+/-- the hypotheses are not only satisfiable, the conclusion is what evaluation gives -/
+example : (serverRun ⟨false, .nil⟩ (fun _ => false) ((exStream exWs2 [1, 2, 3]).map fun b => [b])).out
+    = .established Gen.c06ProtocolVersion .none false [1, 2, 3] := by decide +kernel
+/-- `security:  starttls` on a server with a certificate, TLS completing: StartTLS-secured session -/
+example : (serverRun ⟨false, .ok⟩ (fun l => l.isEmpty) ((exStream exWs2Tls []).map fun b => [b])).out
+    = .established Gen.c06ProtocolVersion .tls true [] := by
+  have h := (C06_admits_every_wellformed ⟨false, .ok⟩ (fun l => l.isEmpty) exU exP exWs1 [47] bHttp11 exWs2Tls []
+    Gen.c06ProtocolVersion ((exStream exWs2Tls []).map fun b => [b]) (flatten_bytewise _)
+    (by decide) (by decide) (by decide) (by decide) (by decide)).1
+  rw [h]; decide
+/-- the TLS hypothesis is needed: the same stream on a server without a certificate is refused 503 -/
+example : (serverRun ⟨false, .nil⟩ (fun l => l.isEmpty) [exStream exWs2Tls []]).out = .refused 503 := by
+  decide +kernel
+/-- all 128 letter-case variants of `upgrade` satisfy the `Connection` hypothesis -/
+example : ∀ s ∈ ([117, 112, 103, 114, 97, 100, 101] : B).foldr
+      (fun c acc => acc.flatMap fun t => [c :: t, (c - 32) :: t]) [[]],
+    goLower s = Gen.srvUpgradeConnection := by decide +kernel
+/-- the Go-format corollary on the client's own two requests (one read each) and a payload byte -/
+def exHs1 : Headers :=
+  [(Gen.acceptsProtocolVersion, Gen.c06ProtocolVersion), (Gen.userAgent, bSocketaceSlash ++ Gen.unknownVersion)]
+def exHs2 : Headers :=
+  [(bConnection, Gen.srvUpgradeConnection), (bUpgrade, bSocketaceSlash ++ Gen.c06ProtocolVersion),
+    (Gen.userAgent, bSocketaceSlash ++ Gen.unknownVersion)]
+example : (serverRun ⟨true, .nil⟩ (fun _ => false)
+      [Security.announceRequest, upgradeRequest Gen.c06ProtocolVersion false, [7]]).out
+    = .established Gen.c06ProtocolVersion .underlying true [7] := by
+  have e := C06_renderer_matches_client
+  have h := (C06_admits_every_rendered ⟨true, .nil⟩ (fun _ => false) [47] bHttp11 exHs1 [47] bHttp11 exHs2 [7]
+    Gen.c06ProtocolVersion [Security.announceRequest, upgradeRequest Gen.c06ProtocolVersion false, [7]]
+    (by rw [e.1, e.2 Gen.c06ProtocolVersion false (by decide)]; simp [exHs1, exHs2])
+    (by decide) (by decide) (by decide) (by decide) (by decide)).1
+  rw [h]; decide
+/-- `C06_admits_exactly`, right to left, is applicable: its right-hand side holds for the example stream -/
+example : ∃ u p hd rest u2 p2 hd2 rest2,
+    ReadsRequest ((exStream exWs2 [1, 2, 3]).length + 2) (exStream exWs2 [1, 2, 3]) Gen.requestMethod u p hd rest ∧
+    firstSupported (hget hd Gen.acceptsProtocolVersion) = some Gen.c06ProtocolVersion ∧
+    ReadsRequest ((exStream exWs2 [1, 2, 3]).length + 2) rest Gen.srvUpgradeMethod u2 p2 hd2 rest2 ∧
+    goLower (hget hd2 bConnection) = Gen.srvUpgradeConnection ∧
+    hget hd2 bUpgrade = Gen.srvUpgradePrefix ++ Gen.c06ProtocolVersion ∧
+    (goUpper (hget hd2 bSecurity) = goUpper Gen.srvSecurityToken →
+      (⟨false, .nil⟩ : SrvCfg).secure = false ∧ (⟨false, .nil⟩ : SrvCfg).cert = .ok ∧ (fun _ => false) rest2 = true) := by
+  have h := (C06_admits_exactly ⟨false, .nil⟩ (fun _ => false) [exStream exWs2 [1, 2, 3]] Gen.c06ProtocolVersion).mp
+    ⟨.none, false, [1, 2, 3], by decide +kernel⟩
+  simpa using h
+/-- … and left to right refuses: a stream offering only unsupported versions has no such reading -/
+example : ¬ ∃ t s left, (serverRun ⟨false, .nil⟩ (fun _ => false)
+    [wireRequest Gen.requestMethod [47] bHttp11 [(Gen.acceptsProtocolVersion, [32, 118, 49, 46, 48, 46, 48, 44, 32, 118, 51])] ++
+      wireRequest Gen.srvUpgradeMethod [47] bHttp11 exWs2]).out = .established Gen.c06ProtocolVersion t s left := by
+  have : (serverRun ⟨false, .nil⟩ (fun _ => false)
+    [wireRequest Gen.requestMethod [47] bHttp11 [(Gen.acceptsProtocolVersion, [32, 118, 49, 46, 48, 46, 48, 44, 32, 118, 51])] ++
+      wireRequest Gen.srvUpgradeMethod [47] bHttp11 exWs2]).out = .refused 409 := by decide +kernel
+  rw [this]
+  rintro ⟨_, _, _, h⟩; cases h
+
+def exR1 : Headers := [([83, 101, 114, 118, 101, 114], [115, 111, 99, 107, 101, 116, 97, 99, 101, 47, 57]),
+    ([99, 97, 112, 97, 98, 105, 108, 105, 116, 105, 101, 115], [102, 111, 111, 44, 32, 83, 116, 97, 114, 116, 84, 108, 115, 32, 44, 98, 97, 114]),
+    ([112, 114, 111, 116, 111, 99, 111, 108, 45, 118, 101, 114, 115, 105, 111, 110], [32, 118, 50, 46, 48, 46, 48]),
+    ([88, 45, 69, 120, 116, 114, 97], [49])]
+def exR2 : Headers := [([67, 111, 110, 110, 101, 99, 116, 105, 111, 110], [32, 117, 112, 103, 114, 97, 100, 101]),
+    ([88, 45, 89], [122])]
+def exReplies (rest : B) : B :=
+  wireResponse bHttp11 [50, 48, 48] [79, 75] exR1 ++ wireResponse bHttp11 [43, 49, 48, 49] [83, 119, 105, 116, 99, 104, 105, 110, 103, 32, 80, 114, 111, 116, 111, 99, 111, 108, 115] exR2 ++ rest
+
+/-- client, byte by byte, `capabilities: foo, StartTls ,bar` on an insecure carrier, TLS completing, status `+101` -/
+example : (clientRun false (fun l => l.isEmpty) ((exReplies []).map fun b => [b])).out
+    = .established Gen.c06ProtocolVersion .tls true [] := by
+  have h := C06_client_admits_every_wellformed false (fun l => l.isEmpty) bHttp11 [50, 48, 48] [79, 75] exR1
+    bHttp11 [43, 49, 48, 49] _ exR2 [] ((exReplies []).map fun b => [b]) (flatten_bytewise _)
+    (by decide) (by decide) (by decide) (by decide)
+  rw [h]; decide
+/-- client on an already secure carrier: no StartTLS, leftover handed on -/
+example : (clientRun true (fun _ => false) ((exReplies [9, 9]).map fun b => [b])).out
+    = .established Gen.c06ProtocolVersion .underlying true [9, 9] := by
+  have h := C06_client_admits_every_wellformed true (fun _ => false) bHttp11 [50, 48, 48] [79, 75] exR1
+    bHttp11 [43, 49, 48, 49] _ exR2 [9, 9] ((exReplies [9, 9]).map fun b => [b]) (flatten_bytewise _)
+    (by decide) (by decide) (by decide) (by decide)
+  rw [h]; decide
+
 end SA.Handshake
 
 #print axioms SA.Handshake.C06_segmentation_independent
@@ -327,3 +635,8 @@ end SA.Handshake
 #print axioms SA.Handshake.C06_client_admits_only
 #print axioms SA.Handshake.C06_else_refused
 #print axioms SA.Handshake.C06_panic_site_inventory
+#print axioms SA.Handshake.C06_admits_every_wellformed
+#print axioms SA.Handshake.C06_admits_every_rendered
+#print axioms SA.Handshake.C06_client_admits_every_wellformed
+#print axioms SA.Handshake.C06_admits_exactly
+#print axioms SA.Handshake.C06_renderer_matches_client
